@@ -30,6 +30,14 @@ CLAIMED.update({
  'C16': dict(cat='model_checking', tech='spec-as-oracle: Clamp/InDomain/presence rules of Processor.tla evaluated by TLC on decode traces', ref='3 C16', note=PROC_NOTE,
              text='Descriptions with discrete and continuous DV nodes under permanent and conditional nodes; TLC checks per decode that every present DV node has a value inside its domain, that it equals the clamp of the requested entry, that the corrected vector reports it, and that absent nodes have no value and an inactive canonical entry. (Direct set_des_var_value with out-of-range values: see the C16 extension once built.)'),
 })
+CLAIMED.update({
+ 'C09': dict(cat='model_checking', tech='spec-as-oracle: declarative ValidMatrices (ConnSem.tla) enumerated by TLC vs recorded enumeration / validation / counts', ref='3 C09',
+             note='ConnSem is my reading of the connector-constraint semantics; per-pair limits are logged and only constrained by CapsOK; TLC is an evaluator here (no temporal content); TLC + CommunityModules trusted',
+             text='For every connector settings of the corpus (all 1x1 alphabet settings, seeded sample of the 147k-element 2x2 alphabet family with all existence patterns, seeded random up to 3x3 with exclusions, overrides and parallel limits) and every existence pattern the real generator is asked for its aggregate matrices, iter_matrices, validate_matrix on the whole per-pair box, and counts with a cold and a warm cache; TLC computes the set of integer matrices within the limits whose row/column sums are allowed degrees and checks set equality, no duplicates, validate <=> membership and the counts.'),
+ 'C10': dict(cat='model_checking', tech='TLA+ coding machine with history variables (x->matrix function, onto, listed=produced) in Mon_ConnCoding over ConnSem, on decode traces of every registered encoder x imputer', ref='3 C10',
+             note='ConnSem valid-matrix semantics; constraint-violation imputers excluded (returning an invalid design is their purpose); InvalidPatternEncoder is the accepted refusal; an encoder exceeding a 20 s budget is skipped and counted; failures of an (encoder family, imputer, clause) class listed in known_findings.json are attributed to it',
+             text='Every factory of the encoder registry is instantiated with the default and alternative imputers on generated settings; per existence pattern with at least one valid matrix every declared vector (sampled above a cap), out-of-range and over-long vectors are decoded, each corrected vector is decoded again, and get_all_design_vectors is recorded. TLC checks: no exception, matrix in ValidMatrices, corrected vector in range and canonical, idempotence, one matrix per corrected vector, onto-ness when the space was decoded completely, listed = produced vectors, at least two used values per variable.'),
+})
 NA = {}
 
 def check_entry(pid):
